@@ -746,11 +746,29 @@ let run_net args lib =
             | _ -> -1) in
         let stamp tag = z_of_int (try List.assoc tag table with Not_found -> 0) in
         let lp = load_page w is_https resolve cap parse_ref url_parse host_of in
-        let charvest pg q b =
+        (* an element of a collection is a note; an element of an actor's outbox is an activity by that actor (verified by
+           Listing.timeline_entry) around a note: the tag is the note's *)
+        let rec tag_any owner pid e = (match e with
+            | JObj o when kind_in post_kinds o -> tag_of e
+            | JObj o -> (match owner, get_any o (txt "object") with
+                | Some oid, Present obj ->
+                  let (v, _) = timeline_entry w is_https resolve cap parse_ref url_parse host_of [] oid e pid in
+                  (match v with Genuine -> tag_any None pid obj | ErrorItem -> -1)
+                | _, _ -> -1)
+            | _ -> -1) in
+        let charvest (owner, pg) q b =
           let (d, k) = harvest lp (harvest_fuel q) pg q b O in
-          let items = List.filter_map (function DItem (e, _) -> Some (tag_of e) | _ -> Some (-1)) d in
-          (match k with Some (pg', b') -> ((items, Some pg'), b') | None -> ((items, None), O)) in
-        let sp0 = List.map (fun ui -> { s_buf = []; s_page = lp (JStr nc.universe.(ui), None); s_base = O }) ins in
+          let items = List.map (function DItem (e, pid) -> tag_any owner pid e | _ -> -1) d in
+          (match k with Some (pg', b') -> ((items, Some (owner, pg')), b') | None -> ((items, None), O)) in
+        let src_page ui =
+          (match fetch_unknown w is_https resolve cap parse_ref url_parse host_of [] (JStr nc.universe.(ui)) None with
+           | ((FUOk (o, id), _), _) when kind_in actor_kinds o ->
+             (match get_any o (txt "outbox") with
+              | Present v -> (match lp (v, id) with Some pg -> Some (Some id, pg) | None -> None)
+              | _ -> None)
+           | ((FUOk (o, id), _), _) -> (match coll_page o id with Some pg -> Some (None, pg) | None -> None)
+           | _ -> None) in
+        let sp0 = List.map (fun ui -> { s_buf = []; s_page = src_page ui; s_base = O }) ins in
         let rec go sp start amounts = (match amounts, sp with
             | [], _ | _, None -> []
             | a :: rest, Some sp ->
